@@ -1,32 +1,69 @@
-(* C10 — valid instances end in 'solution' or 'no feasible solution', never a crash.  Property theorems only (node level: the
-   internal assert!/unwrap/usize-subtraction sites of run_bab_node; that the engine never hangs and terminates is C04; the exit
-   status is decided by main.rs from the verdict and is checked on the real binary by the correspondence run). *)
+(* C10 — valid instances end in 'solution' or 'no feasible solution', never a crash.  Property theorems only (node and search
+   level: the internal assert!/unwrap/usize-subtraction sites of run_bab_node and of the room stage; that the engine never hangs
+   and terminates is C04; the exit status is decided by main.rs from the verdict, see Cli.wellformed_exit, and is checked on the
+   real binary by the correspondence run). *)
 From Coq Require Import List ZArith Lia Bool Arith.
-Require Import HP1 Cao1 Cao5 Cao6 Rooms Spec Valid Node NoPanic RoomThms.
+Require Import HP1 Cao1 Cao5 Cao6 Rooms Spec Valid Node NoPanic RoomThms RoomSites WfPres Solve.
+Require EngP2.
 Import ListNotations.
 Open Scope nat_scope.
 
-(* for every valid instance and every well-formed subproblem (enforced courses exist, are not cancelled and are not shrunk below
-   their minimum): a run of the node function can only end in one of the sites 6..10 of the room stage -- never in the dummy-row
-   arithmetic (1, 2), the mandatory/skipped assertion (3), the matching routine's unwrap (4) or check_feasibility's assertion (5) *)
-Theorem C10_node_partial : forall courses parts esize shrinkf rooms nd s,
-  Valid courses parts -> WfNode courses nd ->
-  run_full courses parts esize shrinkf rooms nd = Panic s -> 6 <= s <= 10.
+(* Wf2: every shrink bound respects its course's minimum; enforced courses exist and are not cancelled.
+   FloatSane rooms: the two float functions of the room stage are consistent on the given room sizes (esize c n <= r -> n <= shrinkf c r
+   for n = minimum + instructors and every room size r) -- a decidable property of instance and room list (float_saneb, reflected by
+   C10_float_sane_checker; the correspondence run evaluates it for the binary32 functions on every tested instance); True without rooms. *)
+
+(* for every valid instance and every well-formed subproblem, with or without room list: the node function never ends in any of its
+   panic sites 1..10 (dummy-row arithmetic, mandatory/skipped assert, matching unwrap, check_feasibility assert, room stage asserts,
+   unwraps and usize subtraction); it answers, or reports the matching routine's range-checked i32 Overflow outcome (C07) *)
+Theorem C10_node : forall courses parts esize shrinkf rooms nd s,
+  Valid courses parts -> FloatSane courses esize shrinkf rooms -> Wf2 courses nd ->
+  run_full courses parts esize shrinkf rooms nd <> Panic s.
 Proof.
-  intros courses parts esize shrinkf rooms nd s V Hwf H.
-  apply (run_panic_sites courses parts _ _ (valid_one _ _ V) (v_minmax _ _ V) (fun s' => 6 <= s' <= 10) (fun s' Hs => proj1 Hs)
-           (fun nd' a s' Hp => room_gate_site courses esize shrinkf rooms nd' a s' Hp) nd s Hwf H).
+  intros courses parts esize shrinkf rooms nd s V FS Hwf H.
+  apply (run_panic_sites courses parts _ _ (valid_one _ _ V) (v_minmax _ _ V) (fun _ => False) (fun s' Hs => match Hs with end)
+           (fun nd' a s' Hp => room_gate_no_site courses esize shrinkf rooms nd' a s' FS Hp) nd s (wf2_wf courses nd Hwf) H).
 Qed.
 
-(* without a room list no site at all is reachable: the node function answers (or reports the matching routine's range-checked
-   i32 Overflow outcome, see C07) *)
-Theorem C10_node_noroom : forall courses parts esize shrinkf nd s,
-  Valid courses parts -> WfNode courses nd -> run_full courses parts esize shrinkf None nd <> Panic s.
+(* the root is well-formed and well-formedness is inherited by every child the node function generates ... *)
+Theorem C10_root_wf : forall courses, Wf2 courses root.
+Proof. exact wf2_root. Qed.
+Theorem C10_children_wf : forall courses parts esize shrinkf rooms nd cs s,
+  Valid courses parts -> FloatSane courses esize shrinkf rooms -> Wf2 courses nd ->
+  run_full courses parts esize shrinkf rooms nd = Val (Infeasible cs s) -> forall c, In c cs -> Wf2 courses c.
+Proof. intros courses parts esize shrinkf rooms nd cs s V FS. apply (children_wf2 courses parts esize shrinkf rooms V FS). Qed.
+
+(* ... hence, for every worker count and interleaving, NO subproblem the search ever generates makes the node function panic *)
+Theorem C10_search : forall courses parts esize shrinkf rooms smin smax k st nd s,
+  Valid courses parts -> FloatSane courses esize shrinkf rooms ->
+  SReach courses parts esize shrinkf rooms smin smax k st -> In nd (EngP2.generated node assignment st) ->
+  run_full courses parts esize shrinkf rooms nd <> Panic s.
 Proof.
-  intros courses parts esize shrinkf nd s V Hwf H.
-  assert (Hg : forall nd' a s', the_gate courses esize shrinkf None nd' a = Panic s' -> False) by (intros nd' a s' Hp; discriminate Hp).
-  apply (run_panic_sites courses parts _ _ (valid_one _ _ V) (v_minmax _ _ V) (fun _ => False) (fun s' Hs => match Hs with end) Hg nd s Hwf H).
+  intros courses parts esize shrinkf rooms smin smax k st nd s V FS R Hin.
+  destruct (EngP2.reach_gen node assignment (f_full courses parts esize shrinkf rooms) root smin smax (Wf2 courses) (wf2_root courses)
+             (fun n cs s0 c Pn Hf Hc => children_wf2 courses parts esize shrinkf rooms V FS n cs s0 Pn (to_eng_inf _ _ _ Hf) c Hc) k st R) as (Hg & _).
+  rewrite Forall_forall in Hg. apply (C10_node courses parts esize shrinkf rooms nd s V FS (Hg nd Hin)).
 Qed.
+(* and no worker dies unless the matching routine reports Overflow *)
+Theorem C10_no_failure : forall courses parts esize shrinkf rooms smin smax k st,
+  Valid courses parts -> FloatSane courses esize shrinkf rooms ->
+  (forall nd, run_full courses parts esize shrinkf rooms nd <> HOverflow) ->
+  SReach courses parts esize shrinkf rooms smin smax k st -> EngP2.failed node assignment st = [].
+Proof.
+  intros courses parts esize shrinkf rooms smin smax k st V FS Hov R.
+  destruct (EngP2.failed node assignment st) as [|nd t] eqn:Ef; [reflexivity|]. exfalso.
+  pose proof (EngP2.reach_failed node assignment (f_full courses parts esize shrinkf rooms) root smin smax k st R) as Hf. rewrite Ef in Hf.
+  inversion Hf as [|? ? Hp _]; subst.
+  assert (Hgen : In nd (EngP2.generated node assignment st)).
+  { destruct (EngP2.reach_inv node assignment (f_full courses parts esize shrinkf rooms) root smin smax k st R) as [_ _ _ _ _ _ Ia _].
+    apply (Permutation.Permutation_in _ (Permutation.Permutation_sym Ia)). rewrite Ef. left. reflexivity. }
+  unfold f_full in Hp. destruct (run_full courses parts esize shrinkf rooms nd) as [[| |]|site|] eqn:Er; try discriminate.
+  - apply (C10_search courses parts esize shrinkf rooms smin smax k st nd site V FS R Hgen Er).
+  - apply (Hov nd Er).
+Qed.
+
+Theorem C10_float_sane_checker : forall courses esize shrinkf rooms, float_saneb courses esize shrinkf rooms = true -> FloatSane courses esize shrinkf rooms.
+Proof. exact float_saneb_spec. Qed.
 
 (* the matching routine's unwrap (site 4) is unreachable for EVERY instance and node, valid or not *)
 Theorem C10_never_stuck : forall courses parts esize shrinkf rooms nd, run_full courses parts esize shrinkf rooms nd <> Panic 4.
@@ -34,12 +71,19 @@ Proof.
   intros courses parts esize shrinkf rooms nd. apply run_node_never_stuck. intros nd' a H.
   pose proof (room_gate_site courses esize shrinkf rooms nd' a 4 H). lia.
 Qed.
+(* without a room list FloatSane is not needed: take the identity functions *)
+Theorem C10_node_noroom : forall courses parts esize shrinkf nd s,
+  Valid courses parts -> Wf2 courses nd -> run_full courses parts esize shrinkf None nd <> Panic s.
+Proof.
+  intros courses parts esize shrinkf nd s V Hwf H.
+  assert (Hg : forall nd' a s', the_gate courses esize shrinkf None nd' a = Panic s' -> False) by (intros nd' a s' Hp; discriminate Hp).
+  apply (run_panic_sites courses parts _ _ (valid_one _ _ V) (v_minmax _ _ V) (fun _ => False) (fun s' Hs => match Hs with end) Hg nd s (wf2_wf courses nd Hwf) H).
+Qed.
 
-(* the root subproblem is well-formed *)
-Theorem C10_root_wf : forall courses, WfNode courses root.
-Proof. intros courses c []. Qed.
-
-Check C10_node_partial. Check C10_node_noroom. Check C10_never_stuck. Check C10_root_wf.
-Print Assumptions C10_node_partial.
-Print Assumptions C10_node_noroom.
+Check C10_float_sane_checker. Check C10_node. Check C10_root_wf. Check C10_children_wf. Check C10_search. Check C10_no_failure. Check C10_never_stuck. Check C10_node_noroom.
+Print Assumptions C10_node.
+Print Assumptions C10_children_wf.
+Print Assumptions C10_search.
+Print Assumptions C10_no_failure.
 Print Assumptions C10_never_stuck.
+Print Assumptions C10_node_noroom.
